@@ -1300,7 +1300,10 @@ def compare_model(run, ctx, out):
             for (ri, x, y, side) in snap[name]:
                 if side == run.w.m2m_side[ri]: r0.add((ri, x, y))      # the side the flush collects the pairs from
             if m != r0: return diff('pending %s link pairs differ' % name, sorted(m), sorted(r0))
-        if bool(st['modified']) != bool(snap['modified']): return diff('cache.modified differs', st['modified'], snap['modified'])
+        # the real flag may be set by calls that changed nothing (`coll.add(x)` with x already inside): nothing is pending then, which the
+        # comparisons above have established; the direction the invariant needs is `pending => modified`
+        if bool(st['modified']) and not bool(snap['modified']): return diff('cache.modified is not set although the model has pending changes', st['modified'], snap['modified'])
+        if bool(snap['modified']) and not bool(st['modified']): ctx.count('tie:real-modified-flag-set-by-a-call-that-changed-nothing')
         if 'stmts' in snap:
             ms = sorted(json.dumps(x, sort_keys=True) for x in st['writes'])
             rs_ = sorted(json.dumps(x, sort_keys=True) for x in snap['stmts'])
